@@ -65,7 +65,10 @@ func (d *Decrypter) processMessage(device *model.Device, decoded server.LoRaMess
 	if decoded.Payload.MACPayload.FHDR.FCnt >= device.FCntUp {
 		device.FCntUp = decoded.Payload.MACPayload.FHDR.FCnt + 1
 		if err := d.context.Storage.UpdateDeviceState(*device); err != nil {
-			lg.Warning("Unable to update frame counters for device with EUI %s: %v", device.DeviceEUI, err)
+			// The message would be accepted again if it is processed without the
+			// frame counter in place. Drop it.
+			lg.Warning("Unable to update frame counters for device with EUI %s: %v. Ignoring message.", device.DeviceEUI, err)
+			return
 		}
 	}
 	decoded.Payload.Decrypt(device.NwkSKey, device.AppSKey)
